@@ -308,6 +308,11 @@ func (t *Translator) initializeToolBlock(id, name string, toolIndex int, state *
 	if err := t.closeCurrentBlockIfNeeded(state, contentTypeText, w, rc); err != nil {
 		return err
 	}
+	// a preceding tool_use block must be stopped as well: with consecutive tool calls the
+	// earlier block would otherwise never receive its content_block_stop
+	if err := t.closeCurrentBlockIfNeeded(state, contentTypeToolUse, w, rc); err != nil {
+		return err
+	}
 
 	state.currentBlock = &ContentBlock{
 		Type: contentTypeToolUse,
